@@ -1113,6 +1113,23 @@ def make_case(rng, ctx, exact=False):
             v = v + shift
         info["exact"] = True
         ctx.count("exact-integral")
+    elif rng.random() < 0.25:
+        # nearly coplanar facets (session 4, after seed r5-C07-1): a solid with non-triangular faces, one vertex pushed
+        # outward by 3e-7 .. 1e-3 diameters, so the faces around it split into facets whose planes differ by that much
+        # (far above rounding, below any "relative 1e-5"-style tolerance at the low end); generic rotation so that no
+        # normal component is zero; well inside what Truth resolves (its own near-boundary guard is 1e-7)
+        v, info = integral_solid(rng)
+        v = np.array(v, dtype=float)
+        c = v.mean(axis=0)
+        k = int(rng.integers(len(v)))
+        eps = float(10 ** rng.uniform(-6.5, -3.0))
+        v[k] = v[k] + (v[k] - c) / np.linalg.norm(v[k] - c) * eps * gen.diameter(v)
+        if rng.random() < 0.85:
+            v = v @ gen.random_rotation(rng).T
+        if rng.random() < 0.5:
+            v = v * float(2.0 ** rng.integers(-10, 11))
+        info = dict(info, kind="dented:" + info["kind"], rotated=True, dent=eps)
+        ctx.count("near-coplanar-dent")
     else:
         v, info = gen.convex_solid(rng)
     ctx.count("kind:" + info["kind"])
